@@ -1038,6 +1038,10 @@ class QuantityMeta(ClassWithDefinitionMeta):
         cls = super().__new__(mcs, name, bases, clsdict,
                               define_as=define_as)
         assert isinstance(cls, QuantityMeta)
+        # map of units associated with Quantity class (must be there before
+        # the reference unit is created, otherwise that unit would be
+        # registered in the map of the base class)
+        cls._unit_map: Dict[str, Unit] = {}
         if ref_unit_symbol:
             cls._ref_unit = cls._make_ref_unit(ref_unit_symbol, ref_unit_name,
                                                ref_unit_def)
@@ -1052,12 +1056,6 @@ class QuantityMeta(ClassWithDefinitionMeta):
         super().__init__(name, bases, clsdict)
         # register cls
         cls._reg_id = QuantityMeta._registry.register_item(cls)
-        # map of units associated with Quantity class
-        unit = cls._ref_unit
-        if unit is None:
-            cls._unit_map: Dict[str, Unit] = {}
-        else:
-            cls._unit_map = {unit.symbol: unit}
         # converter registry
         cls._converters: List[ConverterT] = []
 
